@@ -459,7 +459,7 @@ func c14R6(r *Report) {
 			form := linearize(e, same, 0)
 			// a single-atom form that is the loop-carried remaining length l: positive by the loop's own `l <= 0 -> break`
 			proved := false
-			gs := append(guardsOf(pb), edgeGuard(pb, ph.Block())...)
+			gs := guardsOnEdge(pb, ph.Block())
 			for _, g := range gs {
 				g = g.norm()
 				bo, isb := g.Cond.(*ssa.BinOp)
@@ -523,7 +523,7 @@ func loopCarriedPositive(lp *ssa.Phi) bool {
 			continue // unchanged on this back edge (continue)
 		}
 		ok := false
-		for _, g := range append(guardsOf(pb), edgeGuard(pb, lp.Block())...) {
+		for _, g := range guardsOnEdge(pb, lp.Block()) {
 			g = g.norm()
 			bo, isb := g.Cond.(*ssa.BinOp)
 			if !isb || bo.X != e {
